@@ -232,6 +232,9 @@ structure Obs where
   finish : List String
   winners : Nat
   preReturn : String := ""
+  /-- every element GetAll appended is a freshly decoded row: members no statement writes
+      are zero, a Scanner member holds exactly the value of its own row -/
+  rowsFaithful : Bool := true
 deriving Repr, Inhabited
 
 def isFinisher (e : String) : Bool := e == "commit" || e == "rollback"
@@ -374,7 +377,7 @@ def holdsC15 (c : Case) (o : Obs) : Bool :=
     (!(c.op == "get" && r == "" && c.hasOutputs && (c.dests == "valid" || c.dests == "outcome+valid" || c.dests == "niloutcome+valid"))
       || o.stored == 1)
   | "getall" =>
-    o.priorKept && (if r == "" then o.appended == (List.range c.nrows).map (· + 1) || !c.hasOutputs else o.appended.isEmpty)
+    o.priorKept && o.rowsFaithful && (if r == "" then o.appended == (List.range c.nrows).map (· + 1) || !c.hasOutputs else o.appended.isEmpty)
   | _ => true
 
 /-- C20: a done context runs nothing and is reported; the driver sees the caller's context -/
@@ -388,7 +391,9 @@ def holdsC20 (c : Case) (o : Obs) : Bool :=
   else
   -- an earlier query's cancelled context must not govern a later query with a live context
   (if c.preCtx == "cancelled" && !c.ctxDone && c.cancelAt.isNone then
-     o.preReturn == "ctx" && o.returns.all (fun r => r != "ctx" && r != "wrapped(ctx)")
+     o.preReturn == "ctx" && o.returns.all (fun r => r != "ctx" && r != "wrapped(ctx)") &&
+     -- nor may the cancelled query have ended the transaction: the later one runs
+     (!(c.onTx && c.txEnd == "after") || o.returns.all (fun r => r != "txDone" && r != "wrapped(txDone)"))
    else true) &&
   (if c.ctxDone && !(c.onTx && c.txEnd == "before-query") then
      execEvents o == 0 &&
